@@ -70,6 +70,11 @@ var proxies = []proxySpec{
 		Name: "sidecar-none", Type: model.SidecarProxy, NS: "other", IPs: []string{"10.4.4.4"}, Labels: map[string]string{"app": "client"}, Thorough: true,
 		Meta: func(m *model.NodeMetadata) { m.InterceptionMode = model.InterceptionNone },
 	},
+	{
+		// a sidecar with an HTTP proxy port: LDS adds a listener whose route configuration ("http_proxy") merges the virtual hosts of all ports
+		Name: "sidecar-http-proxy", Type: model.SidecarProxy, NS: "default", IPs: []string{"10.4.4.5"}, Labels: map[string]string{"app": "client"},
+		Meta: func(m *model.NodeMetadata) { m.HTTPProxyPort = "15080" },
+	},
 	{Name: "router-v6", Type: model.Router, NS: "istio-system", IPs: []string{"2001:db8::2"}, Labels: map[string]string{"istio": "ingressgateway"}, Thorough: true},
 	{Name: "waypoint", Type: model.Waypoint, NS: "default", IPs: []string{"10.8.8.8"}, Labels: map[string]string{"gateway.networking.k8s.io/gateway-name": "waypoint"}, Thorough: true},
 }
